@@ -411,7 +411,13 @@ impl<W: Write> NcRunner<W> {
         // builds a datagram with keys the attacker legitimately owns (tokens issued to it) or foreign ones
         let kind = gets(st, "kind");
         let seq = getu(st, "seq");
-        let proto = if gets(st, "proto") == "Q" { PROTO_Q } else { PROTO_P };
+        let proto = if st.get("pid").is_some() {
+            getu(st, "pid")
+        } else if gets(st, "proto") == "Q" {
+            PROTO_Q
+        } else {
+            PROTO_P
+        };
         let dir = if gets(st, "dir") == "s2c" { "s2c" } else { "c2s" };
         let key: [u8; 32] = match w.toks.get(gets(st, "tok")) {
             Some(t) => {
@@ -535,6 +541,21 @@ impl<W: Write> NcRunner<W> {
         let a = gets(st, "a").to_string();
         match a.as_str() {
             "pump" => self.pump(w, st),
+            "exchange" => {
+                // one honest exchange: the client updates, its datagram reaches the server, the reply reaches the client
+                let c = gets(st, "c").to_string();
+                let b0 = w.emitted.len();
+                self.step_inner(w, &json!({"a":"cupdate","c":c,"dt":getu(st,"dt")}));
+                if w.emitted.len() > b0 && !w.dead {
+                    let k = w.emitted.len();
+                    let b1 = w.emitted.len();
+                    self.step_inner(w, &json!({"a":"sdeliver","d":k}));
+                    if w.emitted.len() > b1 && !w.dead {
+                        let r = w.emitted.len();
+                        self.step_inner(w, &json!({"a":"cdeliver","c":c,"d":r}));
+                    }
+                }
+            }
             "token" => {
                 let name = gets(st, "t").to_string();
                 let key = if gets(st, "key") == "F" { KEY_F } else { KEY_K };
@@ -560,6 +581,8 @@ impl<W: Write> NcRunner<W> {
                         match gets(m, "field") {
                             "expire" => t.expire_timestamp = t.expire_timestamp.wrapping_add(geti(m, "delta") as u64),
                             "proto" => t.protocol_id = getu(m, "value"),
+                            // the holder believes in another protocol id (the sealed part and the keys stay as issued)
+                            "proto_only" => t.protocol_id = getu(m, "value"),
                             "private_bit" => {
                                 let bit = getu(m, "bit") as usize;
                                 t.private_data[(bit / 8) % 1024] ^= 1 << (bit % 8);
